@@ -235,7 +235,8 @@ LINTERS = {
                 base={"enabled": True, "detect_duplicate_constants": False}, sweeps={"min_duplicate_lines": [3, 5, 8, 13, 20]}, cli={"min_duplicate_lines": "--min-lines"},
                 langs=[], limits=[], invalid={}),
     "magic-numbers": dict(cmd="magic-numbers", sections=["magic-numbers"], prefix="magic-numbers", files={"src/m.py": MISC}, base={},
-                          sweeps={"max_small_integer": [5, 30], "allowed_numbers": [[0, 1], [0, 1, 7], [0, 1, 7, 42], [0, 1, 7, 42, 4242]]}, cli={}, langs=[],
+                          sweeps={"max_small_integer": [5, 30], "allowed_numbers": [[0, 1], [0, 1, 7], [0, 1, 7, 42], [0, 1, 7, 42, 4242]]}, cli={}, langs=["python"],
+                          lang_opts=["max_small_integer", "allowed_numbers"], ignore_opt=True,
                           limits=["max_small_integer"], invalid={"max_small_integer": [0, -2]}),
     "print-statements": dict(cmd="print-statements", sections=["print-statements"], prefix="improper-logging", files={"src/m.py": MISC}, base={}, sweeps={}, cli={}, langs=[],
                              limits=[], invalid={}),
@@ -249,7 +250,8 @@ LINTERS = {
     "lazy-ignores": dict(cmd="lazy-ignores", sections=["lazy-ignores"], prefix="lazy-ignores", files={"src/m.py": MISC}, base={}, sweeps={}, cli={}, langs=[], limits=[], invalid={}),
     "performance": dict(cmd="perf", sections=["performance"], prefix="performance", files={"src/m.py": MISC}, base={}, sweeps={}, cli={}, langs=[], limits=[], invalid={}),
     "stringly-typed": dict(cmd="stringly-typed", sections=["stringly-typed"], prefix="stringly-typed", files={"src/sa.py": STRINGLY_A, "src/sb.py": STRINGLY_B}, base={},
-                           sweeps={"min_occurrences": [1, 2, 3], "min_values_for_enum": [2, 3, 4]}, cli={}, langs=[], limits=["min_occurrences"],
+                           sweeps={"min_occurrences": [1, 2, 3], "min_values_for_enum": [2, 3, 4]}, cli={}, langs=["python"], lang_opts=["min_occurrences", "min_values_for_enum"],
+                           ignore_opt=True, limits=["min_occurrences"],
                            invalid={"min_occurrences": [0], "min_values_for_enum": [1]}),
     "lbyl": dict(cmd="lbyl", sections=["lbyl"], prefix="lbyl", files={"src/m.py": MISC}, base={}, sweeps={"detect_dict_key": [True, False]}, cli={}, langs=[], limits=[], invalid={}),
     "unwrap-abuse": dict(cmd="unwrap-abuse", sections=["unwrap-abuse"], prefix="unwrap-abuse", files={"src/r.rs": RS_SAFETY}, base={}, sweeps={}, cli={}, langs=[], limits=[], invalid={}),
@@ -421,10 +423,14 @@ def gen_case(rng):
         if rng.random() < 0.12 and inv:
             opt = rng.choice(inv)
             sec[opt] = rng.choice(lt["invalid"][opt])
+        if lt.get("ignore_opt") and rng.random() < 0.25:
+            # the linter's own ignore list (file patterns), next to - not inside - any language sub-section
+            sec["ignore"] = [rng.choice(sorted(lt["files"]) + ["src/", "nothing/**"])]
         for lang in lang_names:
             if rng.random() < 0.3:
-                opt = rng.choice(lt["limits"])
-                sec[lang] = {opt: rng.choice(lt["sweeps"][opt] + ([0] if rng.random() < 0.1 else []))}
+                # a sub-section for the language that sets only some options: the others fall back to the section's own values
+                opt = rng.choice(lt.get("lang_opts", lt["limits"]))
+                sec[lang] = {opt: rng.choice(lt["sweeps"][opt] + ([0] if rng.random() < 0.1 and opt in lt["invalid"] else []))}
         return sec
 
     def gen_doc():
@@ -465,7 +471,8 @@ def model_request(case, lang):
         cj[slot] = enc_doc(doc, lt["langs"], others)
     if case["explicit_missing"]:
         cj["explicit"] = "missing"
-    return {"prop": PROP, "carriers": cj, "name": lt["sections"][0], "cli": [[k, v] for k, v in case["cli"].items()], "lang": lang, "limits": lt["limits"]}, others
+    return {"prop": PROP, "carriers": cj, "name": lt["sections"][0], "cli": [[k, v] for k, v in case["cli"].items()], "lang": lang,
+            "limits": lt["limits"] + [o for o in lt.get("lang_opts", []) if o not in lt["limits"]]}, others
 
 
 def plumbing_case(args):
@@ -613,6 +620,22 @@ def run(tier: str, seed: int, st: core.ProofStatus) -> core.Result:
     cases.insert(1, {"linter": "nesting", "carriers": {"json": {"nesting": {"max_nesting_depth": 2}, "ignore": ["src/n.py"]}}, "cli": {}, "explicit_missing": False})
     cases.insert(2, {"linter": "nesting", "carriers": {"pyproject": "unparsable"}, "cli": {}, "explicit_missing": False})
     cases.insert(3, {"linter": "stateless-class", "carriers": {"explicit-json": {"stateless_class": {"min_methods": 3}}}, "cli": {}, "explicit_missing": False})
+    # systematic: a language sub-section that sets only one option, next to section-level values of the other options and the
+    # linter's own ignore list - everything the sub-section does not set must still come from the section
+    for name, lt in LINTERS.items():
+        opts = lt.get("lang_opts", lt["limits"])
+        for lang in lt["langs"]:
+            for sub_opt in opts:
+                sec = dict(lt["base"])
+                for o in lt["sweeps"]:
+                    if o != sub_opt:
+                        sec[o] = lt["sweeps"][o][min(1, len(lt["sweeps"][o]) - 1)]     # non-default section-level values
+                sec[lang] = {sub_opt: lt["sweeps"][sub_opt][0]}                      # the strict end of the sweep: findings stay visible
+                for ign in ([None] + ([sorted(lt["files"])[0]] if lt.get("ignore_opt") else [])):
+                    sec2 = dict(sec)
+                    if ign:
+                        sec2["ignore"] = [ign]
+                    cases.append({"linter": name, "carriers": {rng.choice(["yaml", "json", "pyproject"]): {lt["sections"][0]: sec2}}, "cli": {}, "explicit_missing": False})
     models = []
     for case in cases:
         lt = LINTERS[case["linter"]]
